@@ -226,12 +226,73 @@ def load(cfg):
     h, outdir, errors = ensure([cfg])
     if cfg in errors:
         raise errors[cfg]
-    data = json.load(open(os.path.join(outdir, cfg + '.json')))
+    text = open(os.path.join(outdir, cfg + '.json')).read()
+    data = json.loads(text)
     assert data['crate'] == 'helgoboss_midi' and data['format'] == int(FORMAT), 'fact file mismatch'
+    renames = module_renames(data)
+    if renames:
+        # the crate's modules are private and re-exported at the root: moving or renaming one is not an API change.
+        # Definition paths are mapped back to the module names the rules were written against.
+        import re
+        for old, new in renames:
+            text = re.sub(r'(?<![A-Za-z0-9_:])' + re.escape(old) + ('' if old.endswith('::') else r'(?![A-Za-z0-9_])'), new, text)
+        data = json.loads(text)
+        data['module_renames'] = renames
     diags = json.load(open(os.path.join(outdir, cfg + '.diag.json')))['diags']
     f = Facts(cfg, data, diags, h)
     _loaded[cfg] = f
     return f
+
+
+def module_renames(data):
+    """[(current path prefix, baseline path prefix)] for public items that live in another module than at the pinned
+    commit (spec/layout.json: item name -> module).  A whole module is renamed when every baseline item found in it
+    agrees on the target; otherwise the items are renamed one by one."""
+    lp = os.path.join(os.path.dirname(os.path.abspath(__file__)), 'spec', 'layout.json')
+    try:
+        layout = json.load(open(lp))
+    except Exception:       # noqa
+        return []
+
+    def split(p):
+        i = p.rfind('::')
+        return (p[:i], p[i + 2:]) if i >= 0 else ('', p)
+    cur = {'adt': {}, 'trait': {}, 'fn': {}}
+    for a in data['adts']:
+        if a['vis'] == 'Public':
+            m, n = split(a['path'])
+            cur['adt'].setdefault(n, set()).add(m)
+    for t in data['traits']:
+        m, n = split(t['path'])
+        cur['trait'].setdefault(n, set()).add(m)
+    for f in data['fns']:
+        k = f['key']
+        if f['kind'] == 'Fn' and f.get('vis') == 'Public' and '<' not in k and '{' not in k:
+            m, n = split(k)
+            cur['fn'].setdefault(n, set()).add(m)
+    moved = {}          # current module -> {baseline module: [item names]}
+    for kind in ('adt', 'trait', 'fn'):
+        for name, base_mod in layout.get(kind, {}).items():
+            mods = cur[kind].get(name)
+            if not mods or len(mods) != 1:
+                continue
+            m = next(iter(mods))
+            if m != base_mod and m:
+                moved.setdefault(m, {}).setdefault(base_mod, []).append(name)
+    all_cur_mods = set(m for d in cur.values() for ms in d.values() for m in ms)
+    renames = []
+    for m, targets in sorted(moved.items()):
+        # baseline items that still live where they were would be dragged along by a module-level rename
+        stay = any(layout[kind].get(n) == m for kind in cur for n, ms in cur[kind].items() if m in ms)
+        if len(targets) == 1 and not stay and next(iter(targets)) not in all_cur_mods:
+            renames.append((m + '::', next(iter(targets)) + '::'))
+        else:
+            for base_mod, names in sorted(targets.items()):
+                for n in names:
+                    renames.append((m + '::' + n, base_mod + '::' + n))
+    # longest first, so that a nested module is handled before its parent
+    renames.sort(key=lambda r: -len(r[0]))
+    return renames
 
 
 def load_many(cfgs):
